@@ -179,19 +179,30 @@ def handle (op : String) (args res : List String) : Option String :=
         match fuel, ss, rs with
         | fuel + 1, u :: v :: n :: ss', px :: py :: pz :: lat :: lng :: rh :: ch :: rs' =>
           match parseF64? u, parseF64? v, parseV3? px py pz, parseF64? lat, parseF64? lng, parseBool? rh, parseBool? ch with
-          | some u, some v, some p, some lat, some lng, some rh, some _ch =>
+          | some u, some v, some p, some lat, some lng, some rh, some ch =>
             -- the sample point recomputed by the model (unnormalized / normalized)
             let raw := faceUVToXYZ c.face u v
-            let mp := if n == "1" then raw.normalize else raw
+            -- n = "0" raw, "1" normalized, "1:dx:dy:dz" normalized and then every coordinate moved by whole ulps
+            let nudge (x : F64) (t : String) : F64 :=
+              match t.toInt? with
+              | some k =>
+                let step (up : Bool) (y : F64) : F64 := F64.nextafter y (F64.inf (!up))
+                (List.range k.natAbs).foldl (fun y _ => step (decide (k > 0)) y) x
+              | none => x
+            let mp := match n.splitOn ":" with
+              | ["1"] => raw.normalize
+              | ["1", dx, dy, dz] => let q := raw.normalize; V3.mk (nudge q.x dx) (nudge q.y dy) (nudge q.z dz)
+              | _ => raw
             if mp != p then some ("diff sample-point " ++ " ".intercalate (showV3 mp))
             else
               let inCell := q.has (vecOf p)
               let rectHas := F64.le latlo lat && F64.le lat lathi && lngContains lnglo lnghi lng
               if rectHas != rh then some "diff rect-containment-flag"
               else if inCell && !rh then some "propfail rect-bound-misses-point-of-cell"
-              -- `ch` (Go's float Cap.ContainsPoint) is not judged: the cap has zero slack at its farthest vertex, so a
-              -- unit vector one ulp away from `Vertex(k)` can fail the float test; the exact comparison below decides
               else if inCell && !capHasExact ctr p rad then some "propfail cap-bound-misses-point-of-cell-exact"
+              -- since repair D34 (7d5d157) Cell.CapBound carries rounding slack, so Go's own float test
+              -- `CapBound().ContainsPoint(p)` must accept every unit-length point of the cell as well
+              else if inCell && n != "0" && !ch then some "propfail cap-bound-float-test-rejects-point-of-cell"
               else go ss' rs' fuel
           | _, _, _, _, _, _, _ => some "bad cellbound-sample-parse"
         | _, [], [] => none
